@@ -13,7 +13,13 @@ use std::process::{Command, Stdio};
 use std::sync::mpsc;
 use std::time::{Duration, Instant};
 
-pub const VERIF_ROOT: &str = "/verif";
+pub const VERIF_ROOT_DEFAULT: &str = "/verif";
+
+/// Where known_findings.json, findings/, evidence/ and replays/ live. The registered checks
+/// use /verif; background sweeps point AXSIM_ROOT at their own snapshot.
+pub fn verif_root() -> String {
+    std::env::var("AXSIM_ROOT").unwrap_or_else(|_| VERIF_ROOT_DEFAULT.to_string())
+}
 
 #[derive(Clone, Debug, Serialize, Deserialize)]
 pub struct Finding {
@@ -34,7 +40,7 @@ pub struct Finding {
 }
 
 pub fn load_findings() -> Vec<Finding> {
-    let p = Path::new(VERIF_ROOT).join("known_findings.json");
+    let p = Path::new(&verif_root()).join("known_findings.json");
     match std::fs::read_to_string(&p) {
         Ok(s) => {
             let v: Value = serde_json::from_str(&s).expect("known_findings.json parses");
@@ -409,7 +415,7 @@ pub fn minimise(replay: &Value, class: &str, scratch: &Path, budget: Duration) -
 }
 
 pub fn replays_dir() -> PathBuf {
-    let d = Path::new(VERIF_ROOT).join("replays");
+    let d = Path::new(&verif_root()).join("replays");
     let _ = std::fs::create_dir_all(&d);
     d
 }
@@ -481,7 +487,7 @@ pub fn check(prop_id: &str, tier: &str, verif_seed: u64) -> i32 {
     // 1. known findings of this property: reproducers and regression tests
     for f in findings.iter().filter(|f| f.property == prop_id) {
         let Some(rp) = &f.replay else { continue };
-        let path = Path::new(VERIF_ROOT).join(rp);
+        let path = Path::new(&verif_root()).join(rp);
         if !path.exists() {
             println!("HARNESS-ERROR missing reproducer {}", path.display());
             return 2;
@@ -636,7 +642,7 @@ pub fn check(prop_id: &str, tier: &str, verif_seed: u64) -> i32 {
         },
         "assumptions": crate::worker::assumptions_for(prop_id),
     });
-    let evdir = Path::new(VERIF_ROOT).join("evidence");
+    let evdir = Path::new(&verif_root()).join("evidence");
     let _ = std::fs::create_dir_all(&evdir);
     std::fs::write(evdir.join(format!("{prop_id}.json")), serde_json::to_vec_pretty(&ev).unwrap()).unwrap();
     println!(
